@@ -2,6 +2,9 @@ import SqiProofs.LllOps
 import SqiProofs.LllCheck
 import SqiProofs.LllDim2
 import SqiProofs.LllGuard
+import SqiProofs.LllGram
+import SqiProofs.LllResp
+import SqiProofs.LllEnum
 /- Property C16 — "Lattice reduction keeps the lattice and reduces it; responses are short".
    Property theorems only (+ non-vacuity examples); lemmas live in SqiProofs/Lll*.lean, models in
    SqiModel/{Lll,Dim2}.lean (tied to the C code by the correspondence / certificate harness tools/props/c16.py). -/
@@ -76,7 +79,7 @@ theorem lllCheck_sound {dn dd en ed q : Int} {lat red : Mat4} (h : lllCheck dn d
 
 /-- classical consequence: if `η² < δ` the first vector of an accepted basis satisfies
     `|b_1|² (δ-η²)^i ≤ |b*_{i+1}|²` for every i, and `|b_1|⁸ (δ-η²)⁶ ≤ Π|b*_i|²`
-    (= Gram determinant `q² det(L)²`; that last identification is classical and NOT proved here). -/
+    (= Gram determinant `q² det(L)²`, see `lllCheck_prod_B_eq_det` / `lllCheck_first_vector_short_det`). -/
 theorem lllCheck_first_vector_short {dn dd en ed q : Int} {lat red : Mat4}
     (h : lllCheck dn dd en ed q lat red = true) (hη : ((en : ℚ) / ed) ^ 2 < (dn : ℚ) / dd) :
     (∀ i : Fin 4, ((dn : ℚ) / dd - ((en : ℚ) / ed) ^ 2) ^ (i : ℕ) * formQ q (colsQ red 0) (colsQ red 0)
@@ -85,6 +88,42 @@ theorem lllCheck_first_vector_short {dn dd en ed q : Int} {lat red : Mat4}
         ≤ Bn q (colsQ red) 0 * Bn q (colsQ red) 1 * Bn q (colsQ red) 2 * Bn q (colsQ red) 3 := by
   obtain ⟨_, hpos, hS, hL⟩ := lllCheck_sound h
   exact ⟨first_vector_le hS hL hpos hη, first_vector_pow_le hS hL hpos hη⟩
+
+/-- the product of the Gram-Schmidt norms of an accepted basis IS the Gram determinant of the lattice:
+    `B_1 B_2 B_3 B_4 = q² det(red)² = q² det(lattice)²` (orthogonal factorisation `R = M·S`, `M` unit triangular,
+    `S D Sᵀ = diag(B)`; same lattice ⇒ equal squared determinants). -/
+theorem lllCheck_prod_B_eq_det {dn dd en ed q : Int} {lat red : Mat4} (h : lllCheck dn dd en ed q lat red = true) :
+    Bn q (colsQ red) 0 * Bn q (colsQ red) 1 * Bn q (colsQ red) 2 * Bn q (colsQ red) 3
+      = (q : ℚ) ^ 2 * (((toM lat).det : ℤ) : ℚ) ^ 2 := by
+  obtain ⟨_, hpos, _, _⟩ := lllCheck_sound h
+  have hprod := SqiProofs.LllGram.prod_Bn_cols q red hpos
+  have hq : (0 : ℚ) < q := by
+    simp only [lllCheck, Bool.and_eq_true, decide_eq_true_eq] at h
+    exact_mod_cast h.1.1.1.1.1
+  have hdred : (toM red).det ≠ 0 := by
+    intro hz
+    have : (0 : ℚ) < Bn q (colsQ red) 0 * Bn q (colsQ red) 1 * Bn q (colsQ red) 2 * Bn q (colsQ red) 3 :=
+      mul_pos (mul_pos (mul_pos (hpos 0) (hpos 1)) (hpos 2)) (hpos 3)
+    rw [hprod, hz] at this
+    simp at this
+  have hsame : sameRowLattice lat.transpose red.transpose = true := by
+    simp only [lllCheck, Bool.and_eq_true] at h
+    exact h.1.2
+  have hdt : (toM red.transpose).det ≠ 0 := by rw [toM_transpose, Matrix.det_transpose]; exact hdred
+  have hsq := SqiProofs.LllGram.det_sq_of_sameRowLattice hsame hdt
+  rw [toM_transpose, toM_transpose, Matrix.det_transpose, Matrix.det_transpose] at hsq
+  rw [hprod]
+  have : (((toM red).det : ℤ) : ℚ) ^ 2 = (((toM lat).det : ℤ) : ℚ) ^ 2 := by exact_mod_cast hsq
+  rw [this]
+
+/-- **the classical LLL bound in terms of the lattice determinant**: for an accepted output with `η² < δ`,
+    `(δ-η²)⁶ · ‖b_1‖⁸ ≤ q² · det(lattice)²`, i.e. `‖b_1‖² ≤ (δ-η²)^{-3/2} · (q·|det L|)^{1/2}`. -/
+theorem lllCheck_first_vector_short_det {dn dd en ed q : Int} {lat red : Mat4}
+    (h : lllCheck dn dd en ed q lat red = true) (hη : ((en : ℚ) / ed) ^ 2 < (dn : ℚ) / dd) :
+    ((dn : ℚ) / dd - ((en : ℚ) / ed) ^ 2) ^ 6 * (formQ q (colsQ red 0) (colsQ red 0)) ^ 4
+      ≤ (q : ℚ) ^ 2 * (((toM lat).det : ℤ) : ℚ) ^ 2 := by
+  rw [← lllCheck_prod_B_eq_det h]
+  exact (lllCheck_first_vector_short h hη).2
 
 /-- post-condition on the return value demanded by the property (and evaluated by the harness on every call):
     rank-deficient input ⇒ `-1`; full rank ⇒ `0` and an accepted certificate. -/
@@ -202,6 +241,12 @@ theorem short_basis_gauss_reduced {q : Int} (hq : 0 ≤ q) {m r : M2} (h : short
     2 * bilV q r.col1 r.col0 ≤ normV q r.col0 ∧ -normV q r.col0 ≤ 2 * bilV q r.col1 r.col0 :=
   shortBasis_gauss_reduced hq h
 
+/-- **the first output column is a SHORTEST non-zero vector of the input lattice** (q ≥ 0): every non-zero integer
+    combination `x·(col 0) + y·(col 1)` of the INPUT columns has norm ≥ N(first output column). -/
+theorem short_basis_first_is_shortest {q : Int} (hq : 0 ≤ q) {m r : M2} (h : shortBasis q m = some r) {x y : Int}
+    (hxy : ¬(x = 0 ∧ y = 0)) : normV q r.col0 ≤ normV q (m.eval ⟨x, y⟩) :=
+  shortBasis_shortest_input hq h hxy
+
 /-- total correctness: for q > 0 and linearly independent input columns the routine returns (no division by zero,
     the loop terminates: `norm_b` strictly decreases). -/
 theorem short_basis_terminates {q : Int} (hq : 0 < q) {m : M2} (hd : m.det ≠ 0) : (shortBasis q m).isSome = true :=
@@ -215,11 +260,108 @@ example : shortBasis 1 ⟨2, 1, 0, 0⟩ = none := by decide
 theorem closest_vector_in_lattice {q : Int} {rb : M2} {t : V2} {o : CvpOut} (h : closestVector q rb t = some o) :
     t.sub o.tmc = rb.eval o.coords := closestVector_lattice h
 
-/-- `quat_dim2_lattice_qf_enumerate_short_vec`, soundness of found = 1 (completeness NOT claimed). -/
+/-- … and the residual is nearest-plane reduced (q ≥ 0): with `b` = first column, `a` = second column and
+    `a* = N(b)·a - <a,b>·b`: `|2<r,b>| ≤ N(b)` and `|2·N(b)·<a*,r>| ≤ N(a*)` — the "closest vector" is Babai's
+    nearest-plane vector for the basis `(b, a)` (it is the closest lattice vector up to the usual nearest-plane factor;
+    exact closeness is not claimed by the code either). -/
+theorem closest_vector_reduced {q : Int} (hq : 0 ≤ q) {rb : M2} {t : V2} {o : CvpOut} (h : closestVector q rb t = some o) :
+    (2 * bil q o.tmc.x o.tmc.y rb.a00 rb.a10 ≤ norm q rb.a00 rb.a10 ∧
+      -(norm q rb.a00 rb.a10) ≤ 2 * bil q o.tmc.x o.tmc.y rb.a00 rb.a10) ∧
+    (let nb := norm q rb.a00 rb.a10
+     let bl := bil q rb.a01 rb.a11 rb.a00 rb.a10
+     let as0 := rb.a01 * nb - rb.a00 * bl
+     let as1 := rb.a11 * nb - rb.a10 * bl
+     2 * (bil q as0 as1 o.tmc.x o.tmc.y * nb) ≤ norm q as0 as1 ∧
+       -(norm q as0 as1) ≤ 2 * (bil q as0 as1 o.tmc.x o.tmc.y * nb)) :=
+  closestVector_reduced hq h
+
+/-- `quat_dim2_lattice_qf_enumerate_short_vec`, soundness of found = 1 (for completeness see below). -/
 theorem enumerate_short_vec_sound {cond : V2 → Option Elem} {q : Int} {tmc : V2} {b : M2} {nb : Int} {mt : Nat}
     {e : Elem} (h : enumerateShortVec cond q tmc b nb mt = some (some e)) :
     ∃ x y : Int, cond (tmc.sub (b.eval ⟨x, y⟩)) = some e ∧ normV q (tmc.sub (b.eval ⟨x, y⟩)) ≤ nb :=
   enumerateShortVec_sound cond q tmc b nb h
+
+/-! ### completeness of the bounded enumeration — what is and is not guaranteed
+
+`quat_dim2_lattice_qf_enumerate_short_vec` processes the cells `(x,y)`, `y = -bound_y … bound_y`,
+`x = -x_v(y) … bound_x(y)`, in the order y ascending, x ascending; every cell costs one try; it stops after a hit,
+after the cell (0,0), or when `max_tries` is used up (`SqiProofs.LllEnum.enumerateShortVec_eq_fold`).  The box is
+computed for the CENTRED ellipse `a x² + b x y + c y² ≤ N' = norm_bound - N(target_minus_closest)` (the C comment calls
+this a heuristic), while the test is `N(target_minus_closest - B·(x,y)) ≤ norm_bound`. -/
+open SqiProofs.LllEnum in
+/-- `quat_dim2_lattice_qf_value_bound_generation` is a strict upper bound of `√(num_a/denom_a) + num_b/denom_b`
+    (no square roots: for every rational `t ≥ 0` with `t²·denom_a ≤ num_a`); it succeeds whenever `denom_a > 0`,
+    `denom_b ≠ 0`, `num_a ≥ 0`. -/
+theorem bound_generation_upper {numA denA numB denB : Int} (hdA : 0 < denA) (hdB : denB ≠ 0) (hnA : 0 ≤ numA) :
+    ∃ r : Int, boundGen numA denA numB denB = some (some r) ∧
+      ∀ t : ℚ, 0 ≤ t → t ^ 2 * denA ≤ numA → t + (numB : ℚ) / denB < r :=
+  boundGen_upper hdA hdB hnA
+
+open SqiProofs.LllEnum in
+/-- the Fincke–Pohst box: every integer point of the centred ellipse has its `x` strictly inside the x-range of its
+    row; its `y` is strictly inside `[-bound_y, bound_y]` if `(4a²c - b²)·y² ≤ 4a²·N'` — implied by the ellipse when
+    `a = 1` or `b = 0` (second statement), NOT in general (`enumeration_box_misses_ellipse`). -/
+theorem enumeration_box_contains {q : Int} {tmc : V2} {b : M2} {nb : Int} {pre : EnumPre}
+    (hpre : enumPre q tmc b nb = some pre) (ha : 0 < qfA q b) {x y : Int}
+    (h : qfA q b * x * x + qfB q b * x * y + qfC q b * y * y ≤ nbeOf q tmc nb) :
+    (∃ lo hi, rowBounds pre y = some (lo, hi) ∧ lo < x ∧ x < hi) ∧
+    ((2 * qfA q b * (2 * qfA q b) * qfC q b - qfB q b * qfB q b) * (y * y)
+        ≤ 2 * qfA q b * (2 * qfA q b) * nbeOf q tmc nb → -pre.boundY < y ∧ y < pre.boundY) ∧
+    (qfA q b = 1 ∨ qfB q b = 0 → -pre.boundY < y ∧ y < pre.boundY) := by
+  obtain ⟨h1, h2⟩ := box_contains hpre ha h
+  exact ⟨h1, h2, fun hs => h2 (code_y_of_ellipse ha hs h)⟩
+
+open SqiProofs.LllEnum in
+/-- **completeness relative to the box, with the exact stop conditions**: if the routine does not abort, the cell
+    `(x,y)` is in the box, no earlier cell (rows `y' < y` completely, then `x' < x` in row `y`) satisfies
+    bound+condition or is (0,0), fewer than `max_tries` cells precede it, and bound+condition holds at `(x,y)`, then
+    the routine returns that element. -/
+theorem enumerate_short_vec_complete_in_box (cond : V2 → Option Elem) (q : Int) (tmc : V2) (b : M2) (nb : Int) (mt : Nat)
+    {pre : EnumPre} (hpre : enumPre q tmc b nb = some pre) {r : Option Elem}
+    (hres : enumerateShortVec cond q tmc b nb mt = some r)
+    {x y lo hi : Int} (hy1 : -pre.boundY ≤ y) (hy2 : y ≤ pre.boundY) (hrow : rowBounds pre y = some (lo, hi))
+    (hx1 : lo ≤ x) (hx2 : x ≤ hi)
+    (hrows : ∀ y' ∈ intRange (-pre.boundY) (y - 1), ∀ lo' hi', rowBounds pre y' = some (lo', hi') →
+      ∀ x' ∈ intRange lo' hi', Pass cond q tmc b nb x' y')
+    (hrowy : ∀ x' ∈ intRange lo (x - 1), Pass cond q tmc b nb x' y)
+    (htries : cellsOfRows pre (intRange (-pre.boundY) (y - 1)) + (intRange lo (x - 1)).length < mt)
+    {e : Elem} (hhit : boundAndCondition cond q x y tmc b nb = some e) : r = some e :=
+  enum_complete_in_box cond q tmc b nb mt hpre hres hy1 hy2 hrow hx1 hx2 hrows hrowy htries hhit
+
+open SqiProofs.LllEnum in
+/-- **completeness for forms with `a = 1` or `b = 0`** (e.g. every basis whose first vector has norm 1, every
+    orthogonal basis): a point `(x,y)` of the centred ellipse at which bound+condition holds IS returned, provided no
+    earlier cell hits or is the origin and fewer than `max_tries` cells precede it. -/
+theorem enumerate_short_vec_complete_special (cond : V2 → Option Elem) (q : Int) (tmc : V2) (b : M2) (nb : Int) (mt : Nat)
+    {pre : EnumPre} (hpre : enumPre q tmc b nb = some pre) (ha : 0 < qfA q b) (hs : qfA q b = 1 ∨ qfB q b = 0)
+    {r : Option Elem} (hres : enumerateShortVec cond q tmc b nb mt = some r) {x y : Int}
+    (hell : qfA q b * x * x + qfB q b * x * y + qfC q b * y * y ≤ nbeOf q tmc nb)
+    {e : Elem} (hhit : boundAndCondition cond q x y tmc b nb = some e) :
+    ∃ lo hi, rowBounds pre y = some (lo, hi) ∧
+      ((∀ y' ∈ intRange (-pre.boundY) (y - 1), ∀ lo' hi', rowBounds pre y' = some (lo', hi') →
+          ∀ x' ∈ intRange lo' hi', Pass cond q tmc b nb x' y') →
+       (∀ x' ∈ intRange lo (x - 1), Pass cond q tmc b nb x' y) →
+       cellsOfRows pre (intRange (-pre.boundY) (y - 1)) + (intRange lo (x - 1)).length < mt →
+       r = some e) := by
+  obtain ⟨⟨lo, hi, hrow, hlo, hhi⟩, _, hy⟩ := enumeration_box_contains hpre ha hell
+  obtain ⟨hy1, hy2⟩ := hy hs
+  exact ⟨lo, hi, hrow, fun h1 h2 h3 =>
+    enum_complete_in_box cond q tmc b nb mt hpre hres (by omega) (by omega) hrow (by omega) (by omega) h1 h2 h3 hhit⟩
+
+/-- **the box does NOT contain the ellipse in general** (the y-bound uses `4a²c - b²` where the ellipse gives
+    `4a²c - a·b²`): q = 3, reduced basis (2,0),(-1,1) (form (4,-4,4)), target_minus_closest = 0, norm_bound = 680.
+    The lattice vector `B·(7,15)`, i.e. `w = (1,-15)`, has norm 676 ≤ 680, but `bound_y = 14 < 15`: with the condition
+    "vec = w" and 10000 tries the routine returns 0.  Replayed on the C code on every run (`d2.enumeq`). -/
+theorem enumeration_box_misses_ellipse :
+    normV 3 ⟨1, -15⟩ ≤ 680 ∧ (⟨1, -15⟩ : V2) = (⟨0, 0⟩ : V2).sub ((⟨2, -1, 0, 1⟩ : M2).eval ⟨7, 15⟩) ∧
+    enumerateShortVec (eqCondition ⟨1, -15⟩) 3 ⟨0, 0⟩ ⟨2, -1, 0, 1⟩ 680 10000 = some none := by
+  refine ⟨by decide, by decide, by decide +kernel⟩
+
+/-- non-vacuity of the completeness statements on the same input: the precomputation succeeds (bound_y = 14), and the
+    in-box vector (2,0) = -B·(-1,0) IS found. -/
+example : (SqiProofs.LllEnum.enumPre 3 ⟨0, 0⟩ ⟨2, -1, 0, 1⟩ 680).map (·.boundY) = some 14 ∧
+    enumerateShortVec (eqCondition ⟨2, 0⟩) 3 ⟨0, 0⟩ ⟨2, -1, 0, 1⟩ 680 10000 = some (some ⟨1, ⟨2, 0, 0, 0⟩⟩) := by
+  refine ⟨by decide +kernel, by decide +kernel⟩
 
 /-- `quat_2x2_lattice_enumerate_cvp_filter`: a returned element is `condition v` with `v ≡ target` modulo the
     lattice and `N(v) ≤ 2^dist_bound`. -/
@@ -242,6 +384,27 @@ theorem sample_response_found {p : Int} {rl : Nat} {denom content : Int} {lll : 
       (sampleResponse p rl denom content lll cands).x = ⟨denom, lll.eval v⟩ ∧
       normFrom2Gram (respGram p denom content lll) v < 2 ^ rl := sampleResponse_found h
 
+/-- **`0 < norm < 2^response_length` for an accepted response.**  Hypotheses: `p > 0`, the LLL basis has full rank
+    (guaranteed by the accepted certificate / the entry guard), and the three conditions the C code only `assert`s
+    (NDEBUG builds do not test them): the divisor `denom²·content/2` is positive, the scalar division of the Gram
+    matrix is exact, `2·norm` is even.  Then the form `gram` is positive definite, so the accepted `v ≠ 0` has
+    positive norm.  (The evenness hypothesis cannot be dropped, see the example below.) -/
+theorem sample_response_found_pos {p : Int} {rl : Nat} {denom content : Int} {lll : Mat4} {cands : List Vec4}
+    (hp : 0 < p) (hd : (toM lll).det ≠ 0) (hdg : 0 < div2 (denom * denom * content))
+    (hdiv : ((((lll.transpose).mul (gramP p)).mul lll).scalarDiv (div2 (denom * denom * content))).2 = true)
+    (heven : ∀ w ∈ cands, 2 ∣ (respGram p denom content lll).qfEval w)
+    (h : (sampleResponse p rl denom content lll cands).found = true) :
+    ∃ v ∈ cands, v.isZero = false ∧
+      (sampleResponse p rl denom content lll cands).x = ⟨denom, lll.eval v⟩ ∧
+      0 < normFrom2Gram (respGram p denom content lll) v ∧
+      normFrom2Gram (respGram p denom content lll) v < 2 ^ rl :=
+  SqiProofs.LllResp.sampleResponse_found_pos hp hd hdg hdiv heven h
+
+/-- without the evenness `assert` the code accepts a vector whose computed norm is 0: p = 3, lattice ℤ⁴ with
+    content 2 (not a signer input: there `gram` is twice an integral form), v = e0: `2·norm = 1`, norm = ⌊1/2⌋ = 0. -/
+example : (sampleResponse 3 6 1 2 Mat4.identity [⟨1, 0, 0, 0⟩]).found = true ∧
+    normFrom2Gram (respGram 3 1 2 Mat4.identity) ⟨1, 0, 0, 0⟩ = 0 := by decide
+
 /-- fallback branch: response = first LLL column, norm = gram[0][0]/2, NO test against the bound. -/
 theorem sample_response_fallback {p : Int} {rl : Nat} {denom content : Int} {lll : Mat4} {cands : List Vec4}
     (h : (sampleResponse p rl denom content lll cands).found = false) :
@@ -257,6 +420,51 @@ theorem response_short_partial {p : Int} {rl : Nat} {denom content : Int} {lll :
     (hfb : div2 ((respGram p denom content lll).get 0 0) < 2 ^ rl) :
     ∃ v : Vec4, v.isZero = false ∧ (sampleResponse p rl denom content lll cands).x = ⟨denom, lll.eval v⟩ ∧
       normFrom2Gram (respGram p denom content lll) v < 2 ^ rl := sampleResponse_short cands hfb
+
+/-- **the fallback is short whenever the LLL certificate is accepted and a determinant inequality holds.**
+    If `lllCheck δ η p lattice lll` accepts, `η² < δ`, the scalar division of the Gram matrix is exact with divisor
+    `dg = denom²·content/2 > 0`, and
+        `p² · det(lattice)² < (δ-η²)⁶ · (dg · 2^(response_length+1))⁴`
+    (an inequality between the INPUTS of `sample_response`; the harness evaluates it on every signing-shaped lattice:
+    there `det = denom⁴·content²/4`, so it reads `√p < 2·(δ-η²)^{3/2}·2^response_length`), then the first LLL
+    vector is below the bound — the hypothesis of `response_short_partial` — and hence EVERY response is short,
+    fallback included, whatever the draws. -/
+theorem fallback_short_of_certificate {dn dd en ed p : Int} {rl : Nat} {denom content : Int} {lat lll : Mat4}
+    (hchk : lllCheck dn dd en ed p lat lll = true) (hη : ((en : ℚ) / ed) ^ 2 < (dn : ℚ) / dd)
+    (hdg : 0 < div2 (denom * denom * content))
+    (hdiv : ((((lll.transpose).mul (gramP p)).mul lll).scalarDiv (div2 (denom * denom * content))).2 = true)
+    (hdet : (p : ℚ) ^ 2 * (((toM lat).det : ℤ) : ℚ) ^ 2
+      < ((dn : ℚ) / dd - ((en : ℚ) / ed) ^ 2) ^ 6 * (((div2 (denom * denom * content) : ℤ) : ℚ) * 2 ^ (rl + 1)) ^ 4)
+    (cands : List Vec4) :
+    div2 ((respGram p denom content lll).get 0 0) < 2 ^ rl ∧
+    ∃ v : Vec4, v.isZero = false ∧ (sampleResponse p rl denom content lll cands).x = ⟨denom, lll.eval v⟩ ∧
+      normFrom2Gram (respGram p denom content lll) v < 2 ^ rl := by
+  have hshort := lllCheck_first_vector_short_det hchk hη
+  rw [SqiProofs.LllResp.colsQ_zero_form] at hshort
+  have hc : (0 : ℚ) < (dn : ℚ) / dd - ((en : ℚ) / ed) ^ 2 := by linarith
+  have hc6 : (0 : ℚ) < ((dn : ℚ) / dd - ((en : ℚ) / ed) ^ 2) ^ 6 := by positivity
+  set N0 : ℤ := form p (lll.col 0) (lll.col 0) with hN0
+  set dg : ℤ := div2 (denom * denom * content) with hdgdef
+  have hlt4 : ((N0 : ℤ) : ℚ) ^ 4 < ((dg : ℚ) * 2 ^ (rl + 1)) ^ 4 := by
+    have := lt_of_le_of_lt hshort hdet
+    exact lt_of_mul_lt_mul_left this hc6.le
+  have hB : (0 : ℚ) ≤ (dg : ℚ) * 2 ^ (rl + 1) := by
+    have : (0 : ℚ) < dg := by exact_mod_cast hdg
+    positivity
+  have hlt : ((N0 : ℤ) : ℚ) < (dg : ℚ) * 2 ^ (rl + 1) := lt_of_pow_lt_pow_left₀ 4 hB hlt4
+  have hltZ : N0 < dg * 2 ^ (rl + 1) := by exact_mod_cast hlt
+  have hg := SqiProofs.LllResp.gram00_eq (p := p) (denom := denom) (content := content) (lll := lll) hdiv
+  have hx : (respGram p denom content lll).get 0 0 < 2 * 2 ^ rl := by
+    by_contra hge
+    have hge' : 2 * 2 ^ rl ≤ (respGram p denom content lll).get 0 0 := Int.not_lt.mp hge
+    have := Int.mul_le_mul_of_nonneg_left hge' (Int.le_of_lt hdg)
+    rw [hg] at this
+    have e : dg * (2 * 2 ^ rl) = dg * 2 ^ (rl + 1) := by rw [pow_succ]; ring
+    rw [e] at this
+    omega
+  have hfb : div2 ((respGram p denom content lll).get 0 0) < 2 ^ rl :=
+    SqiProofs.LllResp.div2_lt (by positivity) hx
+  exact ⟨hfb, response_short_partial cands hfb⟩
 
 /-- witness that the hypothesis cannot be dropped: p = 3, response_length = 2, lattice 4·ℤ⁴, content 2 — no
     candidate can be accepted and the function returns a vector of norm 8 ≥ 2². -/
